@@ -110,8 +110,10 @@ pub fn run(op: &str, input: &Value) -> Value {
         "path.parse" => path_parse(input),
         "path.for_index" => path_for_index(input),
         "hdk.derive" => hdk_derive(input),
+        "hdk.derive.seq" => hdk_derive_seq(input),
         "key.new" => key_new(input),
         "key.sign" => key_sign(input),
+        "key.sign.bulk" => key_sign_bulk(input),
         "sig.parse" => sig_parse(input),
         "sig.v" => sig_v(input),
         "message" => message(input),
@@ -288,6 +290,16 @@ fn hdk_derive(input: &Value) -> R {
     })
 }
 
+/// A HISTORY of derivations on one thread of one process: `steps` = [{seed, path}], answered in order.
+fn hdk_derive_seq(input: &Value) -> R {
+    let steps = input.get("steps").and_then(Value::as_array).ok_or("steps")?;
+    let mut outs = Vec::new();
+    for st in steps {
+        outs.push(hdk_derive(st)?);
+    }
+    Ok(ok(json!({ "steps": outs })))
+}
+
 // ---------------------------------------------------------------- keys and signatures
 
 fn key_new(input: &Value) -> R {
@@ -327,6 +339,42 @@ fn key_sign(input: &Value) -> R {
     o["again"] = json!(again);
     o["addr"] = json!(hx(&*key.address()));
     Ok(ok(o))
+}
+
+/// Bulk sweep: signs `count` digests SHA-256(seed || i as 8 big-endian bytes), i = from.., and reports one SHA-256
+/// per chunk over the concatenated r || s || yParity of the chunk's signatures (the judge compares each chunk hash
+/// with the specification's).  No comparison happens here.
+fn key_sign_bulk(input: &Value) -> R {
+    use sha2::{Digest as _, Sha256};
+    let secret = b(input, "secret")?;
+    let seed = b(input, "seed")?;
+    let from = input.get("from").and_then(Value::as_u64).ok_or("from")?;
+    let count = input.get("count").and_then(Value::as_u64).ok_or("count")?;
+    let chunk = input.get("chunk").and_then(Value::as_u64).ok_or("chunk")?.max(1);
+    let key = match PrivateKey::new(&secret) {
+        Ok(k) => k,
+        Err(e) => return Ok(json!({ "err": e.to_string(), "stage": "key" })),
+    };
+    let mut chunks = Vec::new();
+    let mut acc = Sha256::new();
+    for n in 0..count {
+        let mut h = Sha256::new();
+        h.update(&seed);
+        h.update((from + n).to_be_bytes());
+        let digest: [u8; 32] = h.finalize().into();
+        match key.try_sign(Digest(digest)) {
+            Ok(sig) => {
+                acc.update(sig.r().to_be_bytes());
+                acc.update(sig.s().to_be_bytes());
+                acc.update([sig.y_parity().as_u32() as u8]);
+            }
+            Err(e) => return Ok(json!({ "err": e.to_string(), "stage": "sign", "at": from + n })),
+        }
+        if (n + 1) % chunk == 0 || n + 1 == count {
+            chunks.push(json!(hx(std::mem::replace(&mut acc, Sha256::new()).finalize())));
+        }
+    }
+    Ok(ok(json!({ "chunks": chunks })))
 }
 
 fn sig_parse(input: &Value) -> R {
